@@ -1,9 +1,9 @@
 (* C03 — flat and deep expression forms are interchangeable.  Property theorems only; proofs are in Proofs/. *)
 From Coq Require Import List Arith ZArith.
 Import ListNotations.
-From Exmex.Model Require Import Base EvalBinary Lexer Flat Deep.
+From Exmex.Model Require Import Base EvalBinary Lexer Flat Deep Convert.
 From Exmex.Spec Require Import RefSem.
-From Exmex.Proofs Require Import DeepSem DeepCompile DeepParse C03Main C01Main C01Vars.
+From Exmex.Proofs Require Import CompileCorrect FlatPev DeepSem DeepCompile DeepParse C03Main C01Main C01Vars C11Main ConvertMain ToDeep ConvertCompose.
 Open Scope nat_scope.
 
 (* 1. The deep parser (recursive descent, one folded sub-expression per parenthesis group and per variable under unary
@@ -12,7 +12,6 @@ Open Scope nat_scope.
    to the reference semantics modulo R. *)
 Theorem C03_deep_parse_is_reference :
   forall (D : Type) (C : carrier D) (tb : optable) (R : D -> D -> Prop),
-  wf_table tb = true ->
   (forall a, R a a) -> (forall a b, R a b -> R b a) -> (forall a b c, R a b -> R b c -> R a c) ->
   (forall k a a' b b', R a a' -> R b b' -> R (binf C k a b) (binf C k a' b')) ->
   (forall k a a', R a a' -> R (unf C k a) (unf C k a')) ->
@@ -25,8 +24,8 @@ Theorem C03_deep_parse_is_reference :
     eval_deep C e vals = Ok v /\
     R v (ref_chain C tb (find_parsed_vars (flatten c)) vals c).
 Proof.
-  intros D C tb R Hwt Hr Hs Ht Hb Hu Ha c vals Hwf Hlen.
-  exact (deep_parse_is_reference C tb Hwt R Hr Hs Ht Hb Hu Ha c vals Hwf Hlen).
+  intros D C tb R Hr Hs Ht Hb Hu Ha c vals Hwf Hlen.
+  exact (deep_parse_is_reference C tb R Hr Hs Ht Hb Hu Ha c vals Hwf Hlen).
 Qed.
 
 (* 2. Hence the two forms agree: same variables, values equal modulo R, for every well-formed tree and assignment. *)
@@ -49,7 +48,7 @@ Proof.
   destruct (vars_in_chain c) as [Hv0 Hvr].
   destruct (flat_parse_is_reference C tb Hwt R Hr Hs Ht Hb Hu Ha (find_parsed_vars (flatten c)) vals Hlen c text Hwf Hv0 Hvr)
     as (fx & vf & F1 & F2 & F3 & F4).
-  destruct (deep_parse_is_reference C tb Hwt R Hr Hs Ht Hb Hu Ha c vals Hwf Hlen) as (e & vd & D1 & D2 & D3 & D4).
+  destruct (deep_parse_is_reference C tb R Hr Hs Ht Hb Hu Ha c vals Hwf Hlen) as (e & vd & D1 & D2 & D3 & D4).
   exists fx, e, vf, vd. repeat split; try assumption; [congruence|]. eapply Ht; [exact F4|apply Hs; exact D4].
 Qed.
 
@@ -71,6 +70,59 @@ Theorem C03_deep_eval_is_denotation :
   exists v, eval_deep_relaxed C e vals = Ok v /\ R v (dden C look e).
 Proof. exact @eval_deep_is_dden. Qed.
 
+(* 4. The conversions.  flat_ok: scheduled by prioritized_indices_flat, duplicate-free variable list, variable indices in
+   range, operators from the table; deep_ok: index-consistent with its duplicate-free variable list, operators from the
+   table (priorities 0..99).  Over every such table and every congruence R in which its flagged operators are
+   associative:
+   to_deepex (replaying the flat application order on deep nodes, then wrapper, reset_vars, compile) maps a flat_ok
+   expression to a deep_ok one, from_deepex (flattening with +100 per nesting level, unary operators re-attached) maps
+   a deep_ok expression to a flat_ok one; both keep the variable list and, at every assignment, the value. *)
+Theorem C03_flat_to_deep :
+  forall (D : Type) (C : carrier D) (tb : optable) (R : D -> D -> Prop),
+  (forall a, R a a) -> (forall a b, R a b -> R b a) -> (forall a b c, R a b -> R b c -> R a c) ->
+  (forall k a a' b b', R a a' -> R b b' -> R (binf C k a b) (binf C k a' b')) ->
+  (forall k a a', R a a' -> R (unf C k a) (unf C k a')) ->
+  (forall k, comm_of tb k = true -> forall a b c, R (binf C k (binf C k a b) c) (binf C k a (binf C k b c))) ->
+  forall fx : flatex D, flat_ok C tb fx ->
+  exists e, to_deepex C tb true fx = Ok e /\ deep_ok tb e /\ dvars e = fvars fx /\
+    forall vals, length vals = length (fvars fx) ->
+    exists v w, eval_flat C fx vals = Ok v /\ eval_deep C e vals = Ok w /\ R w v.
+Proof. exact @flat_to_deep. Qed.
+
+Theorem C03_deep_to_flat :
+  forall (D : Type) (C : carrier D) (tb : optable), wf_table tb = true ->
+  forall (R : D -> D -> Prop),
+  (forall a, R a a) -> (forall a b, R a b -> R b a) -> (forall a b c, R a b -> R b c -> R a c) ->
+  (forall k a a' b b', R a a' -> R b b' -> R (binf C k a b) (binf C k a' b')) ->
+  (forall k a a', R a a' -> R (unf C k a) (unf C k a')) ->
+  (forall k, comm_of tb k = true -> forall a b c, R (binf C k (binf C k a b) c) (binf C k a (binf C k b c))) ->
+  forall e : deepex D, deep_ok tb e ->
+  exists fx, from_deepex C tb true e = Ok fx /\ flat_ok C tb fx /\ fvars fx = dvars e /\
+    forall vals, length vals = length (dvars e) ->
+    exists v w, eval_flat C fx vals = Ok v /\ eval_deep C e vals = Ok w /\ R v w.
+Proof. exact @deep_to_flat. Qed.
+
+(* 5. ... any number of times *)
+Theorem C03_any_number_of_round_trips :
+  forall (D : Type) (C : carrier D) (tb : optable), wf_table tb = true ->
+  forall (R : D -> D -> Prop),
+  (forall a, R a a) -> (forall a b, R a b -> R b a) -> (forall a b c, R a b -> R b c -> R a c) ->
+  (forall k a a' b b', R a a' -> R b b' -> R (binf C k a b) (binf C k a' b')) ->
+  (forall k a a', R a a' -> R (unf C k a) (unf C k a')) ->
+  (forall k, comm_of tb k = true -> forall a b c, R (binf C k (binf C k a b) c) (binf C k a (binf C k b c))) ->
+  forall (n : nat) (fx : flatex D), flat_ok C tb fx ->
+  exists fx', round_trips C tb n fx = Ok fx' /\ flat_ok C tb fx' /\ fvars fx' = fvars fx /\
+    forall vals, length vals = length (fvars fx) ->
+    exists v v', eval_flat C fx vals = Ok v /\ eval_flat C fx' vals = Ok v' /\ R v' v.
+Proof. exact @round_trips_ok. Qed.
+
+(* 6. what the flat parser builds from ANY token list it accepts (also sloppy input) is flat_ok, so 4 and 5 apply to
+   it: the deep form obtained by conversion has the same variables and values as the flat form *)
+Theorem C03_every_parsed_flat_expression_converts :
+  forall (D : Type) (C : carrier D) (tb : optable) (text : str) (ts : list (token D)) (fx : flatex D),
+  make_expression tb true text ts (find_parsed_vars ts) = Ok fx -> flat_ok C tb fx.
+Proof. exact @parsed_flat_ok. Qed.
+
 (* non-vacuity: -(a+b)*sin cos c ^ 2 + 3 + 4, deep *)
 Definition ex_tb : optable :=
   [ {| repr := [43]%N; obin := Some {| prio := 0; comm := true |}; ounary := true; oconst := false |};
@@ -88,8 +140,13 @@ Example C03_example_value :
   = Ok (Bin 0 (Bin 2 (Un 1 (Bin 0 (V 0) (V 1))) (Bin 3 (Un 4 (Un 5 (V 2))) (Lit [50%N]))) (Bin 0 (Lit [51%N]) (Lit [52%N]))).
 Proof. vm_compute. reflexivity. Qed.
 
-(* Outside these theorems (covered by the correspondence of this check): the conversions to_deepex/from_deepex and
-   their iteration, sloppy strings both parsers accept, and the operator listings. *)
+(* Outside these theorems (covered by the correspondence of this check): sloppy strings parsed by the DEEP parser
+   directly (the flat parse of every accepted token list and its conversions are covered by 4-6), and the operator
+   listings. *)
 Print Assumptions C03_deep_parse_is_reference.
 Print Assumptions C03_flat_and_deep_agree.
 Print Assumptions C03_deep_eval_is_denotation.
+Print Assumptions C03_flat_to_deep.
+Print Assumptions C03_deep_to_flat.
+Print Assumptions C03_any_number_of_round_trips.
+Print Assumptions C03_every_parsed_flat_expression_converts.
